@@ -188,18 +188,23 @@ ssize_t _GD_GzipWrite(struct gd_raw_file_ *file, const void *ptr,
 int _GD_GzipClose(struct gd_raw_file_ *file)
 {
   int ret;
+  const unsigned int mode = file->mode;
 
   dtrace("%p", file);
 
   ret = gzclose((gzFile)file->edata);
-  if (ret) {
-    dreturn("%i", ret);
-    return ret;
-  }
 
+  /* zlib has released the stream whatever it reports */
   file->idata = -1;
   file->edata = NULL;
   file->mode = 0;
+
+  /* closing a stream opened for reading which ends early (a truncated file) is
+   * not a failure to close */
+  if (ret && (mode & GD_FILE_WRITE)) {
+    dreturn("%i", ret);
+    return ret;
+  }
 
   dreturn("%i", 0);
   return 0;
